@@ -311,12 +311,15 @@ func aggregateRows(selectList sql.SelectList, groupBy []sql.ColumnReference, row
 		return emptyAggregateRow(selectList, rows)
 	}
 
-	// map columns to indexes on the select list
+	// map GROUP BY columns to indexes on the select list. a GROUP BY column
+	// may name its select column by column name, qualified name or alias.
 	colToIdx := map[sql.ColumnReference]int{}
-	for idx, col := range selectList {
-		switch col := col.ValueExpressionPrimary.(type) {
-		case sql.ColumnReference:
-			colToIdx[col] = idx
+	for _, groupByCol := range groupBy {
+		for idx, col := range selectList {
+			if col.Matches(groupByCol) {
+				colToIdx[groupByCol] = idx
+				break
+			}
 		}
 	}
 
@@ -324,7 +327,11 @@ func aggregateRows(selectList sql.SelectList, groupBy []sql.ColumnReference, row
 	groupKey := func(row *storage.Row) string {
 		var key string
 		for _, groupByCol := range groupBy {
-			idx := colToIdx[groupByCol]
+			idx, ok := colToIdx[groupByCol]
+			if !ok {
+				// not in the select list: nothing to group on
+				continue
+			}
 			// quote and delimit each value so that distinct combinations
 			// never produce the same key
 			key += fmt.Sprintf("%#v,", row.Vals[idx])
